@@ -1056,3 +1056,130 @@ def rule_names():
         if later:
             failing.append(f"{rel(p)}:{later[0].lineno}: the reserved set `{resv}` is still being modified while names are handed out")
     return not failing, sites, failing
+
+
+# sites of closure-captured mutable state that are written at call time on the pinned tree, with the reason why they do not affect results
+CLOSURE_STATE_ALLOWED = {
+    ("einx/_src/util/lru_cache.py", "_with_retrace_warning", "cache_failures"): "diagnostic retrace counter, only active when EINX_WARN_ON_RETRACE > 0; it only decides whether a warning is printed",
+}
+
+
+def rule_closure_state():
+    """C10.S.closure_state: objects created once when an operation is built (in an enclosing function) and captured by the function that runs at call time must not be
+    mutated at call time - they are shared by every thread that calls the operation. Flags, for every nested function `inner` of `outer`: a name bound in `outer` (outside
+    `inner`) to a fresh mutable object (container literal/comprehension/constructor, or an instance of a class defined in einx whose methods store into `self`) that `inner`
+    (a) stores into (item/attribute store, `del`, augmented assignment through it), (b) calls a mutator method on, (c) calls ANY method of, or passes on as an argument, when
+    it is such a class instance."""
+    from .pyvc.exec import MUTATORS
+
+    # classes of einx whose methods (other than __init__) store into self
+    stateful = {}
+    for f in all_files():
+        t = ast.parse(open(f).read())
+        for c in ast.walk(t):
+            if isinstance(c, ast.ClassDef):
+                for m in c.body:
+                    if isinstance(m, ast.FunctionDef) and m.name != "__init__" and m.args.args:
+                        me = m.args.args[0].arg
+                        for n in ast.walk(m):
+                            tg = n.targets if isinstance(n, ast.Assign) else [n.target] if isinstance(n, (ast.AugAssign, ast.AnnAssign)) else []
+                            if any(isinstance(q, (ast.Attribute, ast.Subscript)) and root_name(q) == me for tt in tg for q in [tt]):
+                                stateful[c.name] = rel(f)
+                            if isinstance(n, ast.Call) and isinstance(n.func, ast.Attribute) and n.func.attr in MUTATORS and root_name(n.func.value) == me:
+                                stateful[c.name] = rel(f)
+    sites, failing = [], []
+    FRESH_CALLS = {"dict", "list", "set", "defaultdict", "OrderedDict", "deque", "Counter"}
+    for f in all_files():
+        t = ast.parse(open(f).read())
+        for outer in ast.walk(t):
+            if not isinstance(outer, ast.FunctionDef):
+                continue
+            inners = [n for n in outer.body if isinstance(n, ast.FunctionDef)] + [n for st in outer.body for n in ast.walk(st) if isinstance(n, ast.FunctionDef) and n is not st and st is not outer]
+            inners = [n for n in {id(q): q for q in inners}.values()]
+            if not inners:
+                continue
+            inner_nodes = {id(x) for q in inners for x in ast.walk(q)}
+            fresh = {}
+            for st in ast.walk(outer):
+                if id(st) in inner_nodes or not isinstance(st, ast.Assign) or len(st.targets) != 1 or not isinstance(st.targets[0], ast.Name):
+                    continue
+                v = st.value
+                kind = None
+                if isinstance(v, (ast.Dict, ast.List, ast.Set, ast.ListComp, ast.DictComp, ast.SetComp)):
+                    kind = "container"
+                elif isinstance(v, ast.Call):
+                    fn = v.func.attr if isinstance(v.func, ast.Attribute) else v.func.id if isinstance(v.func, ast.Name) else None
+                    if fn in FRESH_CALLS:
+                        kind = "container"
+                    elif fn in stateful:
+                        kind = f"instance of {fn} (methods store into self)"
+                if kind:
+                    fresh[st.targets[0].id] = (kind, st.lineno)
+            if not fresh:
+                continue
+            # only functions that ESCAPE the enclosing call run later, at call time, possibly in several threads: returned (also inside a container / after
+            # decoration by use_name_of / functools.wraps), or stored into an attribute or item. A helper that is merely called while `outer` runs works on
+            # per-call locals.
+            escaping = set()
+            for st in ast.walk(outer):
+                if id(st) in inner_nodes:
+                    continue
+                if isinstance(st, ast.Return) and st.value is not None:
+                    escaping |= {n.id for n in ast.walk(st.value) if isinstance(n, ast.Name)}
+                if isinstance(st, ast.Assign) and any(isinstance(tt, (ast.Attribute, ast.Subscript)) for tt in st.targets):
+                    escaping |= {n.id for n in ast.walk(st.value) if isinstance(n, ast.Name)}
+            for q in inners:
+                if q.name not in escaping:
+                    continue
+                params = {a.arg for a in ast.walk(q.args) if isinstance(a, ast.arg)}
+                rebound = {n.id for n in ast.walk(q) if isinstance(n, ast.Name) and isinstance(n.ctx, ast.Store)} - {g for n in ast.walk(q) if isinstance(n, ast.Nonlocal) for g in n.names}
+                for n in ast.walk(q):
+                    hit = None
+                    if isinstance(n, (ast.Assign, ast.AugAssign, ast.Delete)):
+                        tg = n.targets if not isinstance(n, ast.AugAssign) else [n.target]
+                        for tt in tg:
+                            if isinstance(tt, (ast.Attribute, ast.Subscript)) and root_name(tt) in fresh:
+                                hit = (root_name(tt), "store")
+                    if isinstance(n, ast.Call) and isinstance(n.func, ast.Attribute):
+                        r = root_name(n.func.value) if not isinstance(n.func.value, ast.Name) else n.func.value.id
+                        if r in fresh and (n.func.attr in MUTATORS | {"setdefault", "popitem", "discard", "reset"} or fresh[r][0].startswith("instance")):
+                            hit = (r, f".{n.func.attr}()")
+                    if isinstance(n, ast.Call):
+                        for a in list(n.args) + [k.value for k in n.keywords]:
+                            if isinstance(a, ast.Name) and a.id in fresh and fresh[a.id][0].startswith("instance"):
+                                hit = (a.id, "passed on as an argument")
+                    if hit and hit[0] not in params and hit[0] not in rebound:
+                        site = f"{rel(f)}:{n.lineno}:{outer.name}.{q.name}:{hit[0]}:{hit[1]}"
+                        sites.append(site)
+                        if (rel(f), outer.name, hit[0]) in CLOSURE_STATE_ALLOWED:
+                            continue
+                        failing.append(site + f" ({fresh[hit[0]][0]} created at line {fresh[hit[0]][1]} when `{outer.name}` runs, mutated/used when `{q.name}` runs: shared by all callers of the built function)")
+    return not failing, sites, failing
+
+
+def rule_join_order():
+    """C17.S.join_order (also C16): the order of the joined scatter axes (`_join_exprs.take_one`) is a function of axis NAMES, their positions in the expressions and their
+    occurrence counts only - decided syntactically: inside take_one (and its helper get_count) the only attribute read is `.name`, the only free names are the ones on the
+    white-list below, no set is built, nothing is sorted, no length/value table is consulted."""
+    tree, p = parse("einx/_src/adapter/decomposednamedtensor_from_classical.py")
+    je = find_func(tree, "_join_exprs")
+    sites, failing = [], []
+    if je is None:
+        return False, [], [f"{rel(p)}: _join_exprs not found"]
+    tk = [n for n in ast.walk(je) if isinstance(n, ast.FunctionDef) and n.name == "take_one"]
+    if len(tk) != 1:
+        return False, [], [f"{rel(p)}: nested take_one not found exactly once in _join_exprs"]
+    tk = tk[0]
+    ALLOWED_NAMES = {"axes", "axes2", "axis", "name", "get_count", "first_axisnames", "counts", "idx", "axisname", "np", "dict", "list", "sum", "len", "range", "enumerate"}
+    ALLOWED_ATTRS = {"name", "argmax", "fromkeys"}
+    for n in ast.walk(tk):
+        if isinstance(n, ast.Attribute):
+            sites.append(f"{rel(p)}:{n.lineno}:.{n.attr}")
+            if n.attr not in ALLOWED_ATTRS:
+                failing.append(f"{rel(p)}:{n.lineno}: take_one reads `.{n.attr}` (only axis names, positions and counts may decide the order of the joined axes)")
+        elif isinstance(n, ast.Name) and isinstance(n.ctx, ast.Load):
+            if n.id not in ALLOWED_NAMES:
+                failing.append(f"{rel(p)}:{n.lineno}: take_one uses `{n.id}` (not on the white-list of order-neutral names)")
+        elif isinstance(n, (ast.Set, ast.SetComp)):
+            failing.append(f"{rel(p)}:{n.lineno}: take_one builds a set (iteration order depends on the hash seed)")
+    return not failing, sites, failing
